@@ -226,4 +226,109 @@ theorem fits_congr_of_fpA (q q' : Net) (c : Con) (h : fpA q = fpA q') : fits q c
   intro ix
   exact hasIx_congr hs ix
 
+/-! ### method `b`: what the label-free edge lists still determine -/
+
+/-- all node ids recorded in an `edges` dict, with multiplicity -/
+def incid (e : List (Ix × List Int)) : List Int := (e.map (·.2)).flatten
+
+theorem incid_edgeAdd (e : List (Ix × List Int)) (ix : Ix) (v : Int) :
+    (incid (edgeAdd e ix v)).Perm (v :: incid e) := by
+  induction e with
+  | nil => simp [edgeAdd, incid]
+  | cons hd tl ih =>
+    obtain ⟨k, l⟩ := hd
+    simp only [edgeAdd]
+    split
+    · simp only [incid, List.map_cons, List.flatten_cons, List.append_assoc]
+      have : (l ++ [v] ++ (tl.map (·.2)).flatten).Perm (v :: (l ++ (tl.map (·.2)).flatten)) := by
+        rw [List.append_assoc]
+        exact List.perm_middle
+      simp only [List.append_assoc] at this ⊢
+      exact this
+    · simp only [incid, List.map_cons, List.flatten_cons] at ih ⊢
+      exact (List.Perm.append_left l ih).trans List.perm_middle
+
+theorem incid_foldl_term (t : List Ix) (v : Int) (acc : List (Ix × List Int)) :
+    (incid (t.foldl (fun a ix => edgeAdd a ix v) acc)).Perm (t.map (fun _ => v) ++ incid acc) := by
+  induction t generalizing acc with
+  | nil => simp
+  | cons ix rest ih =>
+    simp only [List.foldl_cons, List.map_cons, List.cons_append]
+    exact (ih _).trans ((List.Perm.append_left _ (incid_edgeAdd acc ix v)).trans List.perm_middle)
+
+theorem incid_foldl_inputs (l : List (List Ix × Nat)) (acc : List (Ix × List Int)) :
+    (incid (l.foldl (fun a ti => ti.1.foldl (fun a ix => edgeAdd a ix (Int.ofNat ti.2)) a) acc)).Perm
+      (l.flatMap (fun ti => ti.1.map (fun _ => Int.ofNat ti.2)) ++ incid acc) := by
+  induction l generalizing acc with
+  | nil => simp
+  | cons ti rest ih =>
+    simp only [List.foldl_cons, List.flatMap_cons, List.append_assoc]
+    refine (ih _).trans ?_
+    refine (List.Perm.append_left _ (incid_foldl_term ti.1 (Int.ofNat ti.2) acc)).trans ?_
+    rw [← List.append_assoc, ← List.append_assoc]
+    exact List.Perm.append_right _ List.perm_append_comm
+
+/-- the node ids of `edgesOf n`: −1 once per output index, `i` once per index occurrence in term `i` -/
+theorem incid_edgesOf (n : Net) :
+    (incid (edgesOf n)).Perm
+      (n.inputs.zipIdx.flatMap (fun ti => ti.1.map (fun _ => Int.ofNat ti.2)) ++ n.output.map (fun _ => (-1 : Int))) := by
+  unfold edgesOf
+  refine (incid_foldl_inputs _ _).trans (List.Perm.append_left _ ?_)
+  have := incid_foldl_term n.output (-1) []
+  simpa [incid] using this
+
+theorem mem_incid_edgesOf (n : Net) (i : Nat) :
+    Int.ofNat i ∈ incid (edgesOf n) ↔ ∃ t, n.inputs[i]? = some t ∧ t ≠ [] := by
+  rw [(incid_edgesOf n).mem_iff]
+  simp only [List.mem_append, List.mem_flatMap, List.mem_map, Prod.exists]
+  constructor
+  · rintro (⟨t, j, hm, ix, hix, he⟩ | ⟨ix, _, he⟩)
+    · have hj : j = i := Int.ofNat.inj he
+      subst hj
+      rw [List.mem_zipIdx_iff_getElem?] at hm
+      exact ⟨t, by simpa using hm, List.ne_nil_of_mem hix⟩
+    · have h2 : (-1 : Int) = (i : Int) := he
+      omega
+  · rintro ⟨t, ht, hne⟩
+    left
+    obtain ⟨ix, hix⟩ := List.exists_mem_of_ne_nil t hne
+    exact ⟨t, i, by rw [List.mem_zipIdx_iff_getElem?]; simpa using ht, ix, hix, rfl⟩
+
+/-- under method `b` two contractions without index-free tensors that share a key have the same
+    number of tensors -/
+theorem fpB_same_N (q q' : Net) (h : fpB q = fpB q')
+    (hq : ∀ t ∈ q.inputs, t ≠ []) (hq' : ∀ t ∈ q'.inputs, t ≠ []) :
+    q.inputs.length = q'.inputs.length := by
+  simp only [fpB, FpB.mk.injEq] at h
+  have hp := perm_of_isort_eq _ _ _ h.1
+  have h1 : ∀ l : List (Ix × List Int),
+      ((l.map fun kv => isort (fun a b => decide (a ≤ b)) kv.2).flatten).Perm (incid l) := by
+    intro l
+    induction l with
+    | nil => exact List.Perm.refl _
+    | cons a t ih =>
+      simp only [incid, List.map_cons, List.flatten_cons] at ih ⊢
+      exact (perm_isort _ _).append ih
+  have hperm : (incid (edgesOf q)).Perm (incid (edgesOf q')) :=
+    (h1 _).symm.trans ((List.Perm.flatten hp).trans (h1 _))
+  have hmem : ∀ i : Nat, i < q.inputs.length ↔ i < q'.inputs.length := by
+    intro i
+    have e := hperm.mem_iff (a := Int.ofNat i)
+    rw [mem_incid_edgesOf, mem_incid_edgesOf] at e
+    constructor
+    · intro hi
+      have : ∃ t, q.inputs[i]? = some t ∧ t ≠ [] :=
+        ⟨q.inputs[i], by simp [hi], hq _ (List.getElem_mem hi)⟩
+      obtain ⟨t, ht, _⟩ := e.1 this
+      exact (List.getElem?_eq_some_iff.1 ht).1
+    · intro hi
+      have : ∃ t, q'.inputs[i]? = some t ∧ t ≠ [] :=
+        ⟨q'.inputs[i], by simp [hi], hq' _ (List.getElem_mem hi)⟩
+      obtain ⟨t, ht, _⟩ := e.2 this
+      exact (List.getElem?_eq_some_iff.1 ht).1
+  rcases Nat.lt_trichotomy q.inputs.length q'.inputs.length with hlt | heq | hgt
+  · exact absurd ((hmem _).2 hlt) (Nat.lt_irrefl _)
+  · exact heq
+  · exact absurd ((hmem _).1 hgt) (Nat.lt_irrefl _)
+
 end Cotengra.Reusable
